@@ -2,8 +2,8 @@ package main
 
 import (
 	"bytes"
-	"runtime"
 	"fmt"
+	"runtime"
 	"strings"
 	"sync"
 	"sync/atomic"
@@ -329,11 +329,13 @@ func raceRound(r *vlib.RNG) raceOutcome {
 	}
 	// closed is closed, also after a racy Close
 	c0 := st.OpCount()
-	if _, err := db.Get(pool[0], nil); err != leveldb.ErrClosed {
-		fail("Get after the racy Close returned %v", err)
+	cr, pan, hung := guard(10*time.Second, func() cres { _, err := db.Get(pool[0], nil); return cres{err: err} })
+	if hung || pan != "" || cr.err != leveldb.ErrClosed {
+		fail("Get after the racy Close: err=%v hung=%v %s", cr.err, hung, pan)
 	}
-	if err := db.Close(); err != leveldb.ErrClosed {
-		fail("second Close after the racy Close returned %v", err)
+	cr, pan, hung = guard(10*time.Second, func() cres { return cres{err: db.Close()} })
+	if hung || pan != "" || cr.err != leveldb.ErrClosed {
+		fail("second Close after the racy Close: err=%v hung=%v %s", cr.err, hung, pan)
 	}
 	if st.OpCount() != c0 {
 		fail("calls after the racy Close touched the storage")
